@@ -1,16 +1,17 @@
 """C02 — row aggregates survive the agent -> aggregator transfer unchanged (DESIGN §6 C02)."""
 HARNESS = "./cmd/verif-c02"
 DRIVER = "drv_c02"
-NCORPUS = 5  # scripted rows in cmd/verif-c02 corpus()
+NCORPUS = 7  # scripted buckets in cmd/verif-c02 corpus()
 
 
 def run(c):
-    c.rule = ("one case = one row: random key (tag / string-tag layout incl. index 47, timestamp at every edge of the believe window), "
+    c.rule = ("one case = one BUCKET of 1-6 rows with distinct metrics (rows with no / few / many string tops mixed), all rows pushed through ONE real "
+              "Shard.sampleBucket call and serialised only afterwards, then decoded and merged row by row; per row: random key (tag / string-tag layout incl. index 47, timestamp at every edge of the believe window), "
               "1-6 events (counter / value / histogram / single value with count / unique; tail or one of 5 string-top keys; 6 host "
               "tags; counts 0, total and dyadic multiples) applied through the real data_model API, sent with sf in "
               "{1,2,3,10,3/2,9/4,4,15/2} through the real Shard.sampleBucket (keepF), TL bytes written and read back, merged with "
               "KeyFromStatshouseMultiItem + MergeWithTLMultiItem; non-trivial = row built from >= 2 event kinds or sent in the compact "
-              "(min == max) form; distinct by op-sequence hash")
+               "(min == max) form, or a bucket holding >= 2 rows with string tops; distinct by op-sequence hash")
     c.assumptions += [
         "float64 arithmetic is modelled by exact rationals; the generator stays in the exact domain (small dyadic numbers); float32 rounding of centroids is not modelled",
         "hrissan/tdigest is trusted: a digest is modelled as the list of centroids added to it, Centroids() is an input of the model (agent side: compression 2000 so nothing is merged; "
@@ -28,7 +29,7 @@ def run(c):
         rc, out = c.go_run(binary, ["-mode=corpus", f"-n={NCORPUS}"])
         c.harness_ok(rc, out, "verif-c02 corpus")
         c.correspond(out, drv, label="corpus")
-        rc, out = c.go_run(binary, [f"-n={c.n(3000, 150000)}"], timeout=1500)
+        rc, out = c.go_run(binary, [f"-n={c.n(1200, 50000)}"], timeout=1500)
         c.harness_ok(rc, out, "verif-c02")
         c.correspond(out, drv)
 
